@@ -334,6 +334,47 @@ def search(ctx, broken, seeds):
                         return {"input": {"op": "hash-vary", "kwds": kw}, "observed": errname(e) + ": " + str(e), "expected": "a hash of the default scheme at the configured cost"}
                     if c.needs_update(fresh):
                         return {"input": {"op": "hash-vary", "kwds": kw}, "observed": {"hash": fresh, "needs_update": True}, "expected": "a hash the context has just produced never needs updating"}
+    # per-category overrides: hash, needs_update and verify_and_update must all use the CATEGORY's default scheme and cost
+    for _ in range(12 if not ctx.thorough else 150):
+        a, b2 = rng.sample(["sha256_crypt", "sha512_crypt", "pbkdf2_sha256", "sha1_crypt"], 2)
+        ra, rb = rng.randrange(1000, 3000), rng.randrange(3001, 6000)
+        kw = {"schemes": [a, b2, "md5_crypt"], "default": a, "deprecated": ["auto"], f"{a}__default_rounds": ra, f"{a}__max_rounds": ra + 100,
+              "admin__context__default": b2, f"admin__{b2}__default_rounds": rb, f"admin__{b2}__min_rounds": rb - 10,
+              f"staff__{a}__min_rounds": ra + 200, f"staff__{a}__max_rounds": ra + 900, f"staff__{a}__default_rounds": ra + 300}
+        c = CryptContext(**kw)
+        old = registry.get_crypt_handler("md5_crypt").hash("pw")
+        for cat, want_scheme, want_rounds in ((None, a, ra), ("admin", b2, rb), ("staff", a, ra + 300)):
+            inp = {"op": "category", "kwds": kw, "category": cat}
+            fresh = c.hash("pw", category=cat)
+            hh = registry.get_crypt_handler(want_scheme)
+            if c.identify(fresh) != want_scheme or hh.from_string(fresh).rounds != want_rounds:
+                return {"input": inp, "observed": {"hash": fresh}, "expected": f"{want_scheme} at {want_rounds} rounds"}
+            if c.needs_update(fresh, category=cat):
+                return {"input": inp, "observed": {"hash": fresh, "needs_update": True}, "expected": "a fresh hash of the category is not flagged for that category"}
+            ok, new = c.verify_and_update("pw", old, category=cat)
+            if not ok or new is None or c.identify(new) != want_scheme or hh.from_string(new).rounds != want_rounds or c.needs_update(new, category=cat):
+                return {"input": dict(inp, hash=old), "observed": {"ok": ok, "new": new}, "expected": f"(True, new) with new = {want_scheme} at {want_rounds} rounds, needing no further update"}
+            if c.verify_and_update("pw", new, category=cat) != (True, None):
+                return {"input": dict(inp, hash=new), "observed": "another update requested", "expected": "(True, None): fixed point after one step"}
+    # a cost of 0 is a legitimate configured value where the scheme's hard minimum is 0
+    for kw in ({"schemes": ["sun_md5_crypt"], "sun_md5_crypt__default_rounds": 0}, {"schemes": ["sun_md5_crypt"], "sun_md5_crypt__default_rounds": 0, "sun_md5_crypt__max_rounds": 2000},
+               {"schemes": ["sun_md5_crypt"], "guest__sun_md5_crypt__default_rounds": 0, "sun_md5_crypt__default_rounds": 3}):
+        c = CryptContext(**kw)
+        cat = "guest" if any(k.startswith("guest__") for k in kw) else None
+        fresh = c.hash("pw", category=cat)
+        r = registry.get_crypt_handler("sun_md5_crypt").from_string(fresh).rounds
+        if r != 0 or c.needs_update(fresh, category=cat):
+            return {"input": {"op": "zero-default-rounds", "kwds": kw, "category": cat}, "observed": {"hash": fresh, "rounds": r}, "expected": "0 rounds, as configured"}
+    # bsdi_crypt makes generated costs odd: next to an EVEN minimum the result must still lie inside the window
+    # (the even-maximum case is the recorded finding bsdi-odd-rounds-exceed-even-max and is not probed here)
+    for mn in (30000, 12000, 5002):
+        for kw in ({"schemes": ["bsdi_crypt"], "bsdi_crypt__min_rounds": mn}, {"schemes": ["bsdi_crypt"], "bsdi_crypt__min_rounds": mn, "bsdi_crypt__default_rounds": mn}):
+            c = CryptContext(**kw)
+            fresh = c.hash("pw")
+            r = registry.get_crypt_handler("bsdi_crypt").from_string(fresh).rounds
+            if r < mn or c.needs_update(fresh):
+                return {"input": {"op": "bsdi-even-minimum", "kwds": kw}, "observed": {"hash": fresh, "rounds": r, "needs_update": c.needs_update(fresh)},
+                        "expected": "an odd cost not below the configured minimum; not flagged"}
     for _ in range(80 if not ctx.thorough else 1500):
         schemes = rng.sample(fast, rng.randrange(1, 5))
         kw = {"schemes": schemes}
